@@ -88,7 +88,7 @@ def run_checks(seed: Path, props, inplace: bool):
     meta_f = seed / "meta.json"
     meta = json.loads(meta_f.read_text()) if meta_f.exists() else {}
     if not props:
-        props = [meta.get("property") or seed.name.split("_")[0]]
+        props = [seed.name.split("_")[0]]
     results = {}
     if inplace:
         rc, out = sh(["git", "-C", str(REPO), "apply", "--whitespace=nowarn", str(seed / "patch.diff")])
@@ -119,7 +119,8 @@ def run_checks(seed: Path, props, inplace: bool):
             sh(["git", "-C", str(REPO), "checkout", "--", "."])
         else:
             drop_worktree(wt)
-    meta.setdefault("checks_run", {}).update(results)
+    meta["checks_run"] = {k: v for k, v in meta.get("checks_run", {}).items() if re.fullmatch(r"C\d+", k)}
+    meta["checks_run"].update(results)
     meta["caught_by"] = sorted(p for p, r in meta["checks_run"].items() if r["exit"] == 1)
     meta_f.write_text(json.dumps(meta, indent=1))
     return 0
